@@ -28,6 +28,10 @@ def run(ctx) -> None:
     ctx.rule("C08.R5", "insert_nested/insert_cfg/insert_conditional/insert_tail_loop delegate to _insert_nested_impl with the argument order of their add_* twins", floor=6)
     insert_core(ctx)
     insert_wrappers(ctx)
+    ctx.rule("C08.R6", "the wires handed to insert_* are attached once, after the sibling-ancestor test, with the order edge first (shared with C01.R4)", floor=6)
+    from .c01 import r4_order_edges
+    with ctx.as_rule(C01_R4="C08.R6"):
+        r4_order_edges(ctx)
     from .. import lints
     lints.arm(ctx)
 
@@ -49,6 +53,15 @@ def insert_core(ctx, R1="C08.R1", R2="C08.R2", R3="C08.R3", R4="C08.R4") -> None
         if hits:
             node_loops.append((l, hits[0][1]))
     link_loops = [l for l in loops if calls_in(l, "add_link")]
+    # which enumerations of a HUGR's links are complete (confirmed by reading hugr/base.py): `_links.items()` / `links()` list every link;
+    # the per-node listings walk the value ports 0..n-1 only and never the order port -1
+    partial = [l for l in link_loops if any(f".{m_}(" in u(l.iter) for m_ in ("outgoing_links", "incoming_links", "_node_links", "linked_ports", "_linked_ports"))]
+    if partial:
+        ctx.fail(R2, "Hugr.insert_hugr: all links", file, partial[0].lineno,
+                 f"the links of the inserted HUGR are enumerated through `{u(partial[0].iter)[:80]}`, a per-node listing of the value ports 0..n-1: "
+                 "state-order links (port -1) are never copied, so the image is not isomorphic to the inserted HUGR", partial[0],
+                 expected=f"{src_p}._links.items() / {src_p}.links()", found=u(partial[0].iter))
+        return
     if len(node_loops) != 1 or len(link_loops) != 1:
         ctx.broken("Hugr.insert_hugr: node loop / link loop not found")
     (nl, e0), ll = node_loops[0], link_loops[0]
